@@ -180,18 +180,28 @@ Definition target_of (c : cfg) (s : st) (a : naddr) (ty : N) (data : list N) : o
   let dacc l h := match dacc_ref c s a l h with Some (pt, m) => if dacc_exists s pt (dm_idx m) then Some (T_dacc pt (dm_idx m)) else None | None => None end in
   let per p0 p1 := match per_ref c s a p0 p1 with Some m => Some (T_per (pm_idx m)) | None => None end in
   let board (need : board_cfg -> bool) := match board_by_addr c s a with Some (i, bc) => if need bc then Some (T_board i) else None | None => None end in
-  if (ty =? MSG_BM_OCC) || (ty =? MSG_BM_FREE) || (ty =? MSG_BM_ADDRESS) || (ty =? MSG_BM_CURRENT) then
-    match data with n :: _ => seg n | _ => None end
+  let uid u := match board_by_uid c u with Some i => Some (T_board i) | None => None end in
+  if ty =? MSG_NODE_NEW then
+    match data with _ :: _ :: u1 :: u2 :: u3 :: u4 :: u5 :: u6 :: u7 :: _ => uid [u1; u2; u3; u4; u5; u6; u7] | _ => None end
+  else if ty =? MSG_NODE_LOST then
+    match data with _ :: _ :: u1 :: u2 :: u3 :: u4 :: u5 :: u6 :: u7 :: _ => uid [u1; u2; u3; u4; u5; u6; u7] | _ => None end
+  else if ty =? MSG_CS_STATE then board is_output
+  else if ty =? MSG_CS_DRIVE_ACK then match data with l :: h :: _ => train l h | _ => None end
+  else if ty =? MSG_CS_ACCESSORY_ACK then match data with l :: h :: _ => dacc l h | _ => None end
+  else if ty =? MSG_CS_DRIVE_MANUAL then match data with l :: h :: _ => train l h | _ => None end
+  else if ty =? MSG_CS_ACCESSORY_MANUAL then match data with l :: h :: _ => dacc l h | _ => None end
+  else if ty =? MSG_LC_STAT then match data with p0 :: p1 :: _ => per p0 p1 | _ => None end
+  else if ty =? MSG_LC_WAIT then match data with p0 :: p1 :: _ => per p0 p1 | _ => None end
+  else if ty =? MSG_BM_OCC then match data with n :: _ => seg n | _ => None end
+  else if ty =? MSG_BM_FREE then match data with n :: _ => seg n | _ => None end
   else if ty =? MSG_BM_MULTIPLE then board (fun _ => true)
   else if ty =? MSG_BM_CONFIDENCE then board (fun _ => true)
-  else if (ty =? MSG_BM_SPEED) || (ty =? MSG_CS_DRIVE_ACK) || (ty =? MSG_CS_DRIVE_MANUAL) then
-    match data with l :: h :: _ => train l h | _ => None end
+  else if ty =? MSG_BM_ADDRESS then match data with n :: _ => seg n | _ => None end
+  else if ty =? MSG_BM_CURRENT then match data with n :: _ => seg n | _ => None end
+  else if ty =? MSG_BM_SPEED then match data with l :: h :: _ => train l h | _ => None end
   else if ty =? MSG_BM_DYN_STATE then match data with _ :: l :: h :: _ => train l h | _ => None end
-  else if (ty =? MSG_CS_ACCESSORY_ACK) || (ty =? MSG_CS_ACCESSORY_MANUAL) then
-    match data with l :: h :: _ => dacc l h | _ => None end
-  else if (ty =? MSG_LC_STAT) || (ty =? MSG_LC_WAIT) then match data with p0 :: p1 :: _ => per p0 p1 | _ => None end
-  else if (ty =? MSG_BOOST_STAT) || (ty =? MSG_BOOST_DIAGNOSTIC) then board is_booster
-  else if ty =? MSG_CS_STATE then board is_output
+  else if ty =? MSG_BOOST_DIAGNOSTIC then board is_booster
   else if (ty =? MSG_ACCESSORY_STATE) || (ty =? MSG_ACCESSORY_NOTIFY) then
     match data with n :: _ => match bacc_ref c s a n with Some (pt, m) => Some (T_bacc pt (am_idx m)) | None => None end | _ => None end
-  else Some T_none_needed.
+  else if ty =? MSG_BOOST_STAT then board is_booster
+  else Some T_none_needed.       (* MSG_VENDOR (reverser by CV name) and the queue-only types are not classified here *)
